@@ -285,7 +285,11 @@ class Spec:
                 else:
                     t = self.resolve_type(ex, sn)
                     c = z3.Const('q_' + vn, ex.ts.sort(t))
-                    env2[vn] = ('val', ex.ts.unpack(t, c))
+                    uv = ex.ts.unpack(t, c)
+                    if isinstance(uv.x, PAddr):
+                        # a bound pointer ranges over all addresses, including objects allocated by this path
+                        uv = V(uv.t, PAddr(base=uv.x.base, cid=uv.x.cid, path=uv.x.path, lo=-10 ** 9))
+                    env2[vn] = ('val', uv)
                     try:
                         # a quantifier over pointers of type *T ranges over the addresses of variables of type T
                         ut = self.prog.under(t)[1]
@@ -1258,6 +1262,48 @@ class Spec:
                 except EngineError:
                     pass
 
+    def lock_env_step(self, ex, st, p):
+        """Table-interference mode: the function has just acquired a bucket lock.  Other goroutines ran arbitrarily
+        long before that: all shared memory, the table ghosts and the abstract contents are arbitrary, subject to the
+        `onlock` clauses of the contract (the representation invariant at a point where no other writer is in the
+        middle of an update of this chain).  From here to the release the region is treated as one atomic step
+        (mutual exclusion per chain + validation; DESIGN.md 5): old(.) denotes this state, entry `let`s are re-bound."""
+        con = ex.cur_contract
+        if con is None or not con.of('onlock'):
+            return
+        before = st.copy()
+        ex.env_epochs = getattr(ex, 'env_epochs', 0) + 1
+        st.env_epoch = ex.env_epochs
+        for g in list(st.ghost.keys()):
+            if g.startswith('view$'):
+                del st.ghost[g]
+            elif g in self.ghost_decl:
+                st.ghost[g] = ex.fresh('gLK_' + mangle(g), st.ghost[g].sort())
+        for key, cell in st.mem.items():
+            keep = [(q, v) for (q, v) in cell[1] if q.cid is not None]
+            cell[0] = ex.fresh('MLK_' + mangle(key), cell[0].sort())
+            cell[1] = keep
+        env = dict(ex.cur_env)
+        fr = getattr(ex, 'cur_fr', None)
+        if fr is not None and fr.f['name'] == ex.cur_fn:
+            env = dict(ex.local_env(fr, st))
+        env['lk'] = ('val', V('$addr', p))
+        for c in con.of('onlock'):
+            st.pc.append(self.eval_bool(ex, c.expr, env, st, before))
+        st.lk_old = None
+        st.lk_post = None
+        snap = st.copy()
+        for c in con.clauses:
+            if c.kind == 'let':
+                try:
+                    st.lets[c.extra['var']] = self.eval(ex, c.expr, env, st, snap)
+                except EngineError:
+                    pass
+            elif c.kind in ('calls', 'ensures'):
+                break
+        snap.lets = dict(st.lets)
+        st.lk_old = snap
+
     TRACE_FNS = {'nacquire', 'nblocking', 'nheld', 'holds', 'ncb', 'ncall', 'lastret', 'validated', 'monitorOK', 'itercalls',
                  'iterselect', 'selectchan', 'tickerchan', 'spawnedbefore', 'spawnfn', 'finalizer', 'closed'}
 
@@ -1594,7 +1640,7 @@ class Spec:
         site = 'L' + ex.line(ins)
         invs = self.site_clauses(ex, callee, 'invariant')
         iters = self.site_clauses(ex, callee, 'iteration')
-        fn_old = getattr(ex, 'fn_old', old)
+        fn_old = ex.old_for(st)
         caller_short = ex.short_fn()
 
         def cenv(frx, stx, extra):
@@ -1772,7 +1818,7 @@ class Spec:
             if it:
                 e2['itk'] = ('val', it[0])
                 e2['itv'] = ('val', it[1])
-            g = self.eval_bool(ex, cl.expr, e2, st, getattr(ex, 'fn_old', st))
+            g = self.eval_bool(ex, cl.expr, e2, st, ex.old_for(st))
             ex.oblige(st, '%s/%s/oncall.%s.%s@L%s' % (ex.tagstr(cl), ex.short_fn(), pname, cl.label or 'c%d' % cl.ordinal, ex.line(ins)), g,
                       tags=cl.tags, where='%s:%d' % (cl.file, cl.line), kind='oncall')
 
